@@ -359,6 +359,9 @@ func normaliseAt(v any, parentKey string) any {
 			if e == nil {
 				continue
 			}
+			if arr, ok := e.([]any); ok && emptyDeep(arr) {
+				continue // JSON-LD: an empty set is no value
+			}
 			if k == "jws" || k == "proofValue" || k == "signature" {
 				continue // the signature VALUE is not a claim (C17 deals with its encodings)
 			}
@@ -369,14 +372,47 @@ func normaliseAt(v any, parentKey string) any {
 		}
 		return o
 	case []any:
-		seen := map[string]any{}
-		for _, e := range x {
-			if e == nil {
-				continue
+		// JSON-LD: arrays are sets, nested arrays are flattened, an empty array is no value at all, and node objects with the
+		// same id are ONE node (their members merge; a node object that only repeats an id says nothing)
+		var flat []any
+		var flatten func(a []any)
+		flatten = func(a []any) {
+			for _, e := range a {
+				if inner, ok := e.([]any); ok {
+					flatten(inner)
+				} else if e != nil {
+					flat = append(flat, e)
+				}
 			}
+		}
+		flatten(x)
+		seen := map[string]any{}
+		byID := map[string]map[string]any{}
+		for _, e := range flat {
 			n := normaliseAt(e, parentKey)
+			// (embedded credentials and proofs are graphs of their own: never merged)
+			if m, ok := n.(map[string]any); ok && parentKey != "proof" && parentKey != "verifiableCredential" {
+				if id, ok := m["id"].(string); ok {
+					if prev, dup := byID[id]; dup {
+						for k, v := range m {
+							if pv, has := prev[k]; has && k != "id" {
+								prev[k] = normaliseAt([]any{pv, v}, k)
+							} else {
+								prev[k] = v
+							}
+						}
+						continue
+					}
+					byID[id] = m
+					continue
+				}
+			}
 			b, _ := json.Marshal(n)
 			seen[string(b)] = n
+		}
+		for _, m := range byID {
+			b, _ := json.Marshal(m)
+			seen[string(b)] = m
 		}
 		keys := make([]string, 0, len(seen))
 		for k := range seen {
@@ -400,6 +436,19 @@ func normaliseAt(v any, parentKey string) any {
 		}
 	}
 	return v
+}
+
+func emptyDeep(a []any) bool {
+	for _, e := range a {
+		if inner, ok := e.([]any); ok {
+			if !emptyDeep(inner) {
+				return false
+			}
+		} else if e != nil {
+			return false
+		}
+	}
+	return true
 }
 
 func cloneWith(m map[string]any, k string, v any) map[string]any {
